@@ -263,6 +263,84 @@ func genHistory(rng *lib.Rng, cur int) (clients [][]planOp, delayUs int64) {
 	return
 }
 
+const timeoutSlack = 3 * time.Second
+
+// timeoutHistory: one SEQUENTIAL history about the unlock timeout (run after the concurrent histories of the
+// batch, on the same wallet). Variants (k%5): 0-2 Unlock(T=1 s) followed by requests that must not extend the
+// window (failed unlocks with larger timeouts, failed SetPasswd, ticket-only unlock, status reads);
+// 3 a second SUCCESSFUL unlock with a larger timeout (legitimately extends); 4 Timeout=0 (never auto-locks).
+// Then wait until a control timer of the same duration, armed when the unlock returned, has fired, plus the
+// slack, and observe Status / Dump / GetSeed / Sign. The parent applies the upper-bound rule.
+func (w *wenvT) timeoutHistory(seed int64, k int, cur int) histRec {
+	rng := caseRng("timeout", seed, k)
+	h := histRec{Idx: timeoutBase + k, InitPw: cur, Clients: 1, Timeout: true, SlackNs: int64(timeoutSlack), FinalPw: cur}
+	atomic.StoreInt64(&w.delayNs, 0)
+	w.e.W.ProcWalletLock()
+	start := time.Now()
+	now := func() int64 { return int64(time.Since(start)) }
+	seq := func(o planOp) bool {
+		call := now()
+		ok, es := w.exec(o)
+		ret := now()
+		h.Ops = append(h.Ops, opRec{Client: 0, Kind: o.Kind, Via: o.Via, P: o.P, New: o.New, T: o.T, Ticket: o.Ticket, Call: call, Ret: ret, OK: ok, Err: es})
+		return ok
+	}
+	wrong := func() int {
+		if rng.Bool() {
+			return (cur + 1 + rng.Intn(poolSize-1)) % poolSize
+		}
+		return poolSize + rng.Intn(len(passwords)-poolSize)
+	}
+	via := func() string { return lib.Pick(rng, []string{"direct", "direct", "api"}) }
+	variant := k % 5
+	h.Variant = []string{"failed-unlock-larger-timeout", "mixed-non-extending", "mixed-non-extending", "second-successful-unlock-extends", "timeout-0"}[variant]
+	T := int64(1)
+	if variant == 4 {
+		T = 0
+	}
+	if !seq(planOp{Kind: "unlock", Via: via(), P: cur, T: T}) {
+		h.Note = "timeout history: the initial unlock with the current password failed"
+		return h
+	}
+	ctrl := time.After(time.Second) // control timer of the same duration, armed after the unlock returned
+	seq(planOp{Kind: "status", Via: "flag"})
+	nExtra := rng.Range(1, 4)
+	for j := 0; j < nExtra; j++ {
+		time.Sleep(time.Duration(rng.Range(20, 150)) * time.Millisecond)
+		x := rng.Intn(5)
+		if variant == 0 && j == 0 {
+			x = 0
+		}
+		switch x {
+		case 0:
+			seq(planOp{Kind: "unlock", Via: via(), P: wrong(), T: lib.Pick(rng, []int64{5, 30, 100})})
+		case 1:
+			seq(planOp{Kind: "setpasswd", Via: via(), P: wrong(), New: rng.Intn(poolSize)})
+		case 2:
+			seq(planOp{Kind: "unlock", Via: via(), P: cur, T: 30, Ticket: true})
+		case 3:
+			seq(planOp{Kind: "status", Via: lib.Pick(rng, []string{"status", "flag", "check", "api"})})
+		default:
+			seq(planOp{Kind: "dump", Via: via(), Addr: rng.Intn(8)})
+		}
+	}
+	if variant == 3 {
+		seq(planOp{Kind: "unlock", Via: via(), P: cur, T: 12})
+	}
+	<-ctrl
+	h.CtrlFiredNs = now()
+	time.Sleep(timeoutSlack + 200*time.Millisecond)
+	seq(planOp{Kind: "status", Via: "status"})
+	seq(planOp{Kind: "status", Via: "flag"})
+	seq(planOp{Kind: "status", Via: "api"})
+	seq(planOp{Kind: "dump", Via: via(), Addr: rng.Intn(8)})
+	seq(planOp{Kind: "getseed", Via: via(), P: cur})
+	seq(planOp{Kind: "sign", Via: via(), Addr: rng.Intn(8)})
+	seq(planOp{Kind: "lock", Via: "direct"})
+	seq(planOp{Kind: "status", Via: "flag"})
+	return h
+}
+
 func batchChild(inb []byte) (any, error) {
 	var in batchIn
 	if err := json.Unmarshal(inb, &in); err != nil {
@@ -417,6 +495,9 @@ func batchChild(inb []byte) (any, error) {
 		}
 		cur = final
 		out.Hists = append(out.Hists, h)
+	}
+	if in.TimeoutIdx >= 0 {
+		out.Hists = append(out.Hists, w.timeoutHistory(in.Seed, in.TimeoutIdx, cur))
 	}
 	return out, nil
 }
